@@ -159,6 +159,10 @@ V("c10e-zeroth-power-behind-where", "C10", {"rule": "C10e", "contains": "create_
 V("c10e-epsilon-named-differently", "C10", "silent",
   (GMAT, "    epsilon = 10e-100\n    previous_element = np.power(displacement + epsilon, cutoff_range) * denominator",
    "    tiny = 10e-100\n    shifted = displacement + tiny\n    previous_element = np.power(shifted, cutoff_range) * denominator"))
+V("c14-zero-test-of-dimensionful-mean", "C14", {"rule": "C14", "contains": "_is_displaced"},
+  (GSTATE, "        return not self._connector.np.allclose(self._m, 0.0)", "        return not self._connector.np.allclose(self.xpxp_mean_vector, 0.0)"))
+V("c14-zero-test-of-complex-displacement-local", "C14", "silent",
+  (GSTATE, "        return not self._connector.np.allclose(self._m, 0.0)", "        first_moment = self._m\n        return not self._connector.np.allclose(first_moment, 0.0)"))
 # ------------------------------------------------------------------------------------------- C20
 V("c20-sub-add", "C20", {"rule": "C20c", "contains": "Sub"}, (EXPR, "ast.Sub: op.sub", "ast.Sub: op.add"))
 V("c20-lt-le", "C20", {"rule": "C20c", "contains": "Lt"}, (EXPR, "ast.Lt: op.lt", "ast.Lt: op.le"))
